@@ -14,7 +14,7 @@ import sys
 
 import numpy as np
 
-from common import (Check, MachineryError, RawTLA, main_wrapper, run_tlc, run_workers, stage_spec, tlc_printed_values, to_tla,
+from common import (handle_crash, Check, MachineryError, RawTLA, main_wrapper, run_tlc, run_workers, stage_spec, tlc_printed_values, to_tla,
                     worker_main, write_live_module)
 from ciderpress.models import kernels as K
 
@@ -405,7 +405,8 @@ def main():
     jobs = [{"trees": trees[k::64], "seed": ck.seed + k, "vs_hists": vs_hists} for k in range(64)]
     for res in run_workers(os.path.abspath(__file__), jobs, nproc=16, timeout=3000):
         if "crash" in res:
-            raise MachineryError("worker crashed: %s\n%s" % (res["crash"], res.get("tb")))
+            handle_crash(ck, res)
+            continue
         for v in res["violations"]:
             ck.violation(v["site"], v["detail"], v["replay"])
         ck.evaluations += res["evaluations"]
